@@ -1,4 +1,7 @@
 import Driver.C08
+import Driver.C02
+import Driver.C19
+import Driver.C04
 import Driver.C03
 import Driver.C10
 import Driver.C09
@@ -13,6 +16,9 @@ namespace Driver
 
 structure State where
   c08 : C08.St := {}
+  c02 : C02.St := {}
+  c19 : C19.St := {}
+  c04 : C04.St := {}
   c03 : C03.St := {}
   c10 : C10.St := {}
   c16 : C16.St := {}
@@ -35,6 +41,9 @@ def step (st : State) (line : String) : State × String :=
   | "c09" :: rest => (st, C09.step rest)
   | "c10" :: rest => let (s, o) := C10.step st.c10 rest; ({ st with c10 := s }, o)
   | "c03" :: rest => let (s, o) := C03.step st.c03 rest; ({ st with c03 := s }, o)
+  | "c04" :: rest => let (s, o) := C04.step st.c04 rest; ({ st with c04 := s }, o)
+  | "c19" :: rest => let (s, o) := C19.step st.c19 rest; ({ st with c19 := s }, o)
+  | "c02" :: rest => let (s, o) := C02.step st.c02 rest; ({ st with c02 := s }, o)
   | ["sha", h] => (st, match Bytes.ofHex h with | some b => Bytes.toHex (Sha256.sum b) | none => "bad-op")
   | _ => (st, "bad-op")
 
